@@ -339,12 +339,16 @@ impl Model {
     /// "Revoke a delegation from parent to child": every grant the child holds by delegation from
     /// this parent ends (upper table). The record of a repeated delegate() call only lists the
     /// secrets of the last call; grants of earlier calls are remembered as orphans for classification.
-    fn drop_delegation(&mut self, parent: usize, child: usize) {
+    ///
+    /// `upper = false`: the record goes and the lower table loses the grants, but the upper table
+    /// keeps them (used for the descendants swept by a cascading revocation whose head delegation
+    /// does not exist: nothing the caller named was revoked, so keeping them is a legitimate reading).
+    fn drop_delegation(&mut self, parent: usize, child: usize, upper: bool) {
         let Some(secs) = self.deleg.remove(&(parent, child)) else { return };
         let mut dead_entries = Vec::new();
         let mut orphans = Vec::new();
         for (&(p, s), gs) in self.up.iter_mut() {
-            if p != child {
+            if p != child || !upper {
                 continue;
             }
             gs.retain(|g| {
@@ -380,14 +384,15 @@ impl Model {
     }
 
     pub fn revoke_delegation(&mut self, parent: usize, child: usize, cascade: bool) {
-        self.drop_delegation(parent, child);
+        let head_exists = self.deleg.contains_key(&(parent, child));
+        self.drop_delegation(parent, child, true);
         if cascade {
             let mut q = VecDeque::new();
             q.push_back(child);
             while let Some(cur) = q.pop_front() {
                 let kids: Vec<usize> = self.deleg.keys().filter(|k| k.0 == cur).map(|k| k.1).collect();
                 for k in kids {
-                    self.drop_delegation(cur, k);
+                    self.drop_delegation(cur, k, head_exists);
                     q.push_back(k);
                 }
             }
